@@ -100,6 +100,8 @@ def job_matrix(job):
                         fail({'config': cfg, 'what': 'expr_as_matrix raised', 'expr': name, 'mode': mode, 'error': r[1], 'x_keys': list(xk)})
                         continue
                     Amat, y = r[1]
+                    if not y.keys():
+                        continue        # the expression is identically zero for this x: nothing to relate
                     # check A . coefficients(x) == coefficients(y) at a random numeric point
                     env = {s: sympy.Rational(rng.randint(-4, 4), 1) for s in x.values()}
                     Renv = {}
